@@ -37,7 +37,7 @@ NOW = datetime.datetime(2024, 3, 1, 12, 0, 3, 500000, tzinfo=UTC)
 AST = datetime.datetime(2024, 3, 1, 0, 0, 0, tzinfo=UTC)
 
 DEFAULTS = {'type': 'ping', 'start': 'zero', 'interval': 'seg', 'count': '0', 'timescale': '100', 'version': '0',
-            'inband': '1', 'duration': '200'}
+            'inband': '1', 'duration': '200', 'program_id': '1620'}
 ALPHABET = {
     'type': ['ping', 'scte35', 'ping,scte35'],
     'start': ['zero', 'boundary-1', 'boundary', 'boundary+1', 'mid'],
@@ -46,7 +46,8 @@ ALPHABET = {
     'timescale': ['1', '100', '90000', 'track', '7'],
     'version': ['0', '1'],
     'inband': ['1', '0'],
-    'duration': ['200', '1'],
+    'duration': ['200', '1', '0'],
+    'program_id': ['1620', '0', '65535'],
 }
 LAYOUTS = {'bbb': ('bbb_v7', 240, 4.0), 'synirr': ('synirr_v1', 1000, 2.5)}
 
@@ -66,7 +67,7 @@ def schedule(vec, stream):
     return {'types': v['type'].split(','), 'start': start, 'interval': interval, 'count': int(v['count']),
             'timescale': ts, 'version': int(v['version']), 'inband': v['inband'] == '1', 'duration': int(v['duration']),
             # 'ping' / 'scte35': only that type travels in the media, the other one is listed in the manifest
-            'inband_of': {t: v['inband'] in ('1', t) for t in v['type'].split(',')}}
+            'inband_of': {t: v['inband'] in ('1', t) for t in v['type'].split(',')}, 'program_id': int(v['program_id'])}
 
 
 def query(sch):
@@ -79,6 +80,8 @@ def query(sch):
         q[f'{t}__version'] = str(sch['version'])
         q[f'{t}__inband'] = '1' if sch['inband_of'][t] else '0'
         q[f'{t}__duration'] = str(sch['duration'])
+    if 'scte35' in sch['types'] and sch['program_id'] != 1620:
+        q['scte35__program_id'] = str(sch['program_id'])
     return q
 
 
@@ -127,6 +130,8 @@ def check_scte(acc, bad, sch, k, payload, where):
     want_dur = sch['duration'] * 90000 // ts
     if si['splice_event_id'] != k:
         bad(f'scte35-event-id|{where}', f'event {k}: splice_event_id {si["splice_event_id"]}')
+    if si.get('unique_program_id') != sch['program_id']:
+        bad(f'scte35-program-id|{where}', f'event {k}: unique_program_id {si.get("unique_program_id")}, requested {sch["program_id"]}')
     st = si.get('splice_time')
     if not st or st['pts'] != want_pts:
         bad(f'scte35-pts|{where}', f'event {k}: pts {st and st["pts"]}, schedule gives {want_pts}')
